@@ -752,3 +752,95 @@ fn c14_dynamic_arrays_with_an_absorbed_word_unify_their_elements() {
     }
     println!("CASES c14_absorbed_words {cases}");
 }
+
+fn slot_var(state: &mut tc::state::TypeCheckerState, i: u32) -> TypeVariable {
+    let key = RSV::new_known_value(i, KnownWord::from_le(i), Provenance::Synthetic, None);
+    state.register(RSV::new_synthetic(i, RSVD::StorageSlot { key }))
+}
+fn resolved(state: &mut tc::state::TypeCheckerState, v: TypeVariable) -> (usize, Vec<TE>) {
+    let forest = state.result();
+    (forest.find(&v).index(), forest.get_data(&v).map(|s| s.iter().cloned().collect()).unwrap_or_default())
+}
+
+/// sequences on the typing state itself: a state that was CLONED (the clone unified first, allocating fresh variables from
+/// the shared pool), an equality recorded on one of its two variables only, and a second unification after more evidence
+/// arrived — unification terminates normally, declared-equal variables share a class, and the result reflects ALL evidence
+#[test]
+fn c14_state_sequences_clone_one_sided_equality_and_second_unification() {
+    use storage_layout_extractor::watchdog::LazyWatchdog;
+    std::panic::set_hook(Box::new(|_| {}));
+    let wd = LazyWatchdog.in_rc();
+    let mut cases = 0;
+    // (a) clone, unify the clone (two packed encodings meet: fresh variables), then unify the original
+    let r = catch_unwind(AssertUnwindSafe(|| {
+        let mut state = tc::state::TypeCheckerState::empty();
+        let v: Vec<TypeVariable> = (0..4).map(|i| slot_var(&mut state, i)).collect();
+        state.infer(v[0], TE::packed_of(vec![Span::new(v[1], 0, 8)]));
+        state.infer(v[0], TE::packed_of(vec![Span::new(v[2], 96, 160)]));
+        state.infer(v[3], TE::eq(v[0]));
+        let mut clone = state.clone();
+        let a = unification::unify(&mut clone, &wd).is_ok();
+        let b = unification::unify(&mut state, &wd).is_ok();
+        let same = resolved(&mut state, v[3]).0 == resolved(&mut state, v[0]).0;
+        (a, b, same)
+    }));
+    cases += 1;
+    match r {
+        Err(_) => witness("C14", "unify.terminates", "state cloned, the clone unified (fresh span variables), then the original unified".into(), "PANIC".into(), "both unifications return".into()),
+        Ok((a, b, same)) => if !(a && b && same) { witness("C14", "unify.equal_variables_same_type", "state cloned, the clone unified, then the original unified".into(), format!("clone ok={a} original ok={b} v3~v0={same}"), "both Ok, v3 and v0 in one class".into()); }
+    }
+    // (b) an equality recorded on one side only, on the earlier or on the later variable
+    for on_later in [false, true] {
+        let r = catch_unwind(AssertUnwindSafe(|| {
+            let mut state = tc::state::TypeCheckerState::empty();
+            let v: Vec<TypeVariable> = (0..3).map(|i| slot_var(&mut state, i)).collect();
+            state.infer(v[0], TE::unsigned_word(Some(64)));
+            state.infer(v[2], TE::address());
+            let (holder, other) = if on_later { (v[1], v[0]) } else { (v[0], v[1]) };
+            state.inferences_mut(holder).insert(TE::eq(other));
+            let ok = unification::unify(&mut state, &wd).is_ok();
+            (ok, resolved(&mut state, v[0]), resolved(&mut state, v[1]))
+        }));
+        cases += 1;
+        match r {
+            Err(_) => witness("C14", "unify.terminates", format!("equality v0 = v1 recorded only on the {} variable", if on_later { "later" } else { "earlier" }), "PANIC".into(), "unification returns".into()),
+            Ok((ok, r0, r1)) => if !ok || r0.0 != r1.0 || format!("{:?}", r0.1) != format!("{:?}", r1.1) {
+                witness("C14", "unify.equal_variables_same_type", format!("equality v0 = v1 recorded only on the {} variable; v0 : uint64", if on_later { "later" } else { "earlier" }), format!("ok={ok} v0 class {} {:?}, v1 class {} {:?}", r0.0, r0.1, r1.0, r1.1), "one class, one type".into());
+            }
+        }
+    }
+    println!("CASES c14_state_sequences {cases}");
+}
+
+/// a second unification after more evidence arrived on already registered variables sees that evidence: compatible evidence
+/// is joined, a contradiction becomes a conflict (C15), an added equality joins the classes (C14)
+#[test]
+fn c15_second_unification_sees_new_evidence() {
+    use storage_layout_extractor::watchdog::LazyWatchdog;
+    std::panic::set_hook(Box::new(|_| {}));
+    let wd = LazyWatchdog.in_rc();
+    let r = catch_unwind(AssertUnwindSafe(|| {
+        let mut state = tc::state::TypeCheckerState::empty();
+        let v: Vec<TypeVariable> = (0..3).map(|i| slot_var(&mut state, i)).collect();
+        state.infer(v[0], TE::bytes(Some(64)));
+        state.infer(v[1], TE::unsigned_word(Some(256)));
+        let first = unification::unify(&mut state, &wd).is_ok();
+        state.infer(v[0], TE::signed_word(None));
+        state.infer(v[1], TE::unsigned_word(Some(128)));
+        state.infer(v[2], TE::eq(v[0]));
+        let second = unification::unify(&mut state, &wd).is_ok();
+        (first, second, resolved(&mut state, v[0]), resolved(&mut state, v[1]), resolved(&mut state, v[2]))
+    }));
+    match r {
+        Err(_) => witness("C15", "join.second_unification_sees_new_evidence", "unify; infer more on registered variables; unify".into(), "PANIC".into(), "returns".into()),
+        Ok((first, second, r0, r1, r2)) => {
+            let joined = matches!(r0.1.as_slice(), [TE::Word { width: Some(64), usage }] if usage.is_definitely_signed());
+            let conflict = matches!(r1.1.as_slice(), [TE::Conflict { .. }]);
+            if !(first && second && joined && conflict) {
+                witness("C15", "join.second_unification_sees_new_evidence", "v0: bytes8, v1: uint256; unify; v0: signed, v1: uint128, v2 = v0; unify".into(), format!("ok {first}/{second}; v0 {:?}; v1 {:?}", r0.1, r1.1), "v0: signed 64-bit word, v1: conflict".into());
+            }
+            if r2.0 != r0.0 { witness("C14", "unify.equal_variables_same_type", "v2 = v0 declared after a first unification".into(), format!("classes {} and {}", r2.0, r0.0), "one class".into()); }
+        }
+    }
+    println!("CASES c15_second_unification 1");
+}
